@@ -6,7 +6,7 @@ import Proofs.Core
 import Proofs.Lemmas.C09
 
 namespace Cstruct.C09
-open Cstruct Cstruct.Core
+open Cstruct Cstruct.Core Cstruct.C09.Lemmas
 
 /-- shift the end position of a result -/
 def shiftRes (k : Nat) : Except Err (Val × Nat) → Except Err (Val × Nat)
@@ -21,13 +21,19 @@ theorem c09_shift (cfg : Cfg) (al : Bool) (ty : Ty) (hplain : ty.plain = true) (
     (hp : ty.pow2Aligned cfg) (ctx : Ctx) (pre d : Bytes) (pos : Nat)
     (hal : al = true → ty.alignsDivide cfg pre.length = true) :
     read cfg ty ctx (pre ++ d) (pre.length + pos) = shiftRes pre.length (read cfg ty ctx d pos) := by
-  sorry
+  rw [read_shift cfg al ty hplain hu hp ctx pre d pos hal]
+  cases read cfg ty ctx d pos with
+  | error e => rfl
+  | ok r => rfl
 
 /-- Corollary: the bytes before the start position never matter. -/
 theorem c09_before_irrelevant (cfg : Cfg) (al : Bool) (ty : Ty) (hplain : ty.plain = true) (hu : ty.uniformAlign al = true)
     (hp : ty.pow2Aligned cfg) (ctx : Ctx) (pre pre' d : Bytes) (hlen : pre.length = pre'.length)
     (hal : al = true → ty.alignsDivide cfg pre.length = true) :
     read cfg ty ctx (pre ++ d) pre.length = read cfg ty ctx (pre' ++ d) pre'.length := by
-  sorry
+  have h1 := c09_shift cfg al ty hplain hu hp ctx pre d 0 hal
+  have h2 := c09_shift cfg al ty hplain hu hp ctx pre' d 0 (by rw [← hlen]; exact hal)
+  rw [Nat.add_zero] at h1 h2
+  rw [h1, h2, hlen]
 
 end Cstruct.C09
